@@ -48,6 +48,7 @@ type Enc struct {
 
 	top      *Frame
 	siteHits map[*Site]int
+	siteSeen map[*Site]int
 	typeTags map[string]int
 
 	ghostSite string
